@@ -333,7 +333,47 @@ func c07Reused(gi, l, class int) (key, detail string) {
 func c07InsideForEach(gi, l, class int) (key, detail string) {
 	g := c07Getters[gi]
 	if g.Attr == 0x0008 || g.Attr == 0x8028 {
-		return "", "" // the checkers cover a span, not one attribute
+		// the checkers cover a span, not one attribute: from inside a callback (on any attribute type, the first or a
+		// later match) they give what they give outside, for a right and a wrong MAC / CRC
+		if l != 0 {
+			return "", ""
+		}
+		b := stun.MustBuild(stun.BindingRequest, stun.NewTransactionIDSetter(c07TID), stun.RawAttribute{Type: 0x7F01, Value: []byte{1, 2, 3}},
+			stun.NewUsername("first"), stun.NewSoftware("between"), stun.NewUsername("second"), stun.MessageIntegrity(c07Key), stun.Fingerprint)
+		raw := append([]byte(nil), b.Raw...)
+		if class&1 == 1 {
+			raw[len(raw)-1] ^= 1 // wrong CRC
+		}
+		if class&2 == 2 {
+			raw[len(raw)-8-1] ^= 1 // wrong MAC
+		}
+		m := &stun.Message{Raw: exactSlice(raw, 4)}
+		if m.Decode() != nil {
+			return "harness", "checker message does not decode"
+		}
+		var outside string
+		var inside []string
+		if p := catch(func() {
+			outside = g.Call(m)
+			for _, t := range []stun.AttrType{stun.AttrUsername, stun.AttrSoftware, stun.AttrMessageIntegrity, stun.AttrFingerprint, 0x7F01} {
+				if t == stun.AttrFingerprint && g.Attr == 0x0008 {
+					continue // (a callback sees the attributes from its match on, by design: MESSAGE-INTEGRITY lies before that one)
+				}
+				_ = m.ForEach(t, func(mm *stun.Message) error {
+					inside = append(inside, g.Call(mm))
+					return nil
+				})
+			}
+			inside = append(inside, g.Call(m))
+		}); p != "" {
+			return "panic/" + g.Name, p
+		}
+		for i, o := range inside {
+			if o != outside {
+				return "inside-foreach/" + g.Name, fmt.Sprintf("%s gives %q on the message and %q at visit %d of ForEach callbacks over USERNAME (2), SOFTWARE, MESSAGE-INTEGRITY, FINGERPRINT, the first attribute, and once more outside (variant %d: bit 0 wrong CRC, bit 1 wrong MAC)", g.Name, outside, o, i, class)
+			}
+		}
+		return "", ""
 	}
 	v1 := c07Value(g, l, class, nil)
 	v2 := c07Value(g, (l+5)%41, (class+1)%4, nil)
@@ -668,6 +708,32 @@ func init() {
 								}
 							}
 						}
+					}
+				}
+			}
+			// values longer than the exhaustive range, for the getters whose value has no fixed size: a destination used
+			// before (for shorter values) gives what a fresh one gives
+			for gi, g := range c07Getters {
+				switch g.Attr {
+				case 0x0009, 0x000A, 0x0006, 0x0014, 0x0015, 0x8022:
+				default:
+					continue
+				}
+				for _, l := range []int{41, 42, 43, 44, 45, 46, 47, 48, 64, 100, 128, 255, 256, 508, 512, 763, 1000} {
+					if l <= maxL {
+						continue
+					}
+					for class := 0; class < 4; class++ {
+						fam++
+						if !c.Mine(fam) {
+							continue
+						}
+						c.Eval(1)
+						c.DistinctByConstruction++
+						if key, detail := c07Reused(gi, l, class); key != "" {
+							c.Violation(key, detail, c07Case{Getter: gi, Len: l, Class: class, Pos: -7, Pos2: -1, Seed: c.Seed})
+						}
+						c.Outcome(g.Name + ":long-value")
 					}
 				}
 			}
